@@ -72,7 +72,9 @@ Print Assumptions C29_marshal_results_independent.
    this run decides like the hand model: want_compress (thresholds) then choose (smaller or forced); a failing
    pb.Marshal / gzCompress gives (nil, false, err).  gen_marshal = the generated function on a request given as
    (statements, encoding); zs = bytes as Z. *)
-From RQ Require Import Lib.GoLib Gen.Marshal Proofs.C29_Gen.
+From RQ Require Import Lib.GoLib.
+From RQ Require Import Gen.Marshal.
+From RQ Require Import Proofs.C29_Gen.
 Theorem C29_source_derived_eq : forall (E : Type) (err : E) (gzip : bytes -> option bytes),
   (forall c ss raw gz, gzip raw = Some gz ->
      gen_marshal E err gzip c (ss, Some raw) =
